@@ -17,6 +17,7 @@ def run(ck):
                                "k", "K", "cs", "CS", "sc", "scn", "SCN"] if not cover.get(a)]
         if missing:
             raise MachineryError("vacuous: interpreter action(s) never taken: %s" % missing)
+    IC.direction_b(ck, "C16")
     ck.rule = ("every program of up to L operator instances per group (path construction/painting; paths under rotating and shearing "
                "CTMs with q/Q, w, d; colour operators incl. cs/CS/sc/scn/SC/SCN) enumerated by TLC and run as one page each; the "
                "shape list (class, points, flags, line width, dash, colours) must equal the model's; non-trivial = paints at least "
